@@ -31,7 +31,8 @@ theorem source_ok :
     next open succeeds and shows an admissible transaction list.  False today because of the known
     finding C01-live-tree-in-place (`counterexample_live_tree`: a torn in-place write of a live
     leaf, `counterexample_live_split`: an in-place split of the live leaf); not proved for
-    compactions that sink into a live tree with an internal root.  The proved part is
+    compactions that sink keys into a live tree with an internal root which are not above all its
+    keys.  The proved part is
     `crash_prefix` / `crash_prefix_cfg`, which add exactly these conditions (`CondHist`). -/
 def C02_full : Prop :=
   ∀ (rounds : List Round), FreshHist [] rounds →
@@ -163,8 +164,7 @@ theorem crash_prefix_creation (rounds : List Round) (hok : FreshHist [] rounds)
 /-- **C02 for every configuration that meets `CfgOK`** — in particular for EVERY leaf capacity
     ≥ 1 — from files that do not exist yet.  With a small capacity the compactions of a history
     split leaves of a new tree many times (`ex_split` below); the hypothesis `CondHist` only asks
-    that no compaction sinks into a LIVE tree that would have to be split in place or that
-    already has an internal root. -/
+    that no compaction sinks into a LIVE tree that would have to be split in place (`NoLiveSplit`). -/
 theorem crash_prefix_cfg (cfg : Cfg) (hcfg : CfgOK cfg) (rounds : List Round) (hok : FreshHist [] rounds)
     (hc : CondHist cfg ({} : FS) rounds) :
     ∃ T m fs', Spec.Admissible [] (rounds.map Round.obs) T ∧
@@ -226,6 +226,24 @@ example : (match recover cfgOfSource (afterRounds cfgOfSource (created cfgOfSour
     | .ok (m, fs) => some (content m fs.pv)
     | .error _ => none) =
     some ⟨[1001, 2001, 2002, 3001, 4001], [4000, 1000, 2000], [10000, 20000, 30000, 40000]⟩ := by decide
+
+/-! non-vacuity for a re-sunk key: the second compaction dies (process death, step 20) after its
+    first in-place leaf write — key 20000 is in the live leaf, the manifest is not written, the
+    transaction is still replayed from the log; the next incarnation compacts again:
+    `replace_property_entry` deletes the entry and inserts it again (two leaf writes), then loses
+    power inside the close -/
+def ex_resink : List Round :=
+  [⟨[.commit ⟨[1001], [1000], [10000]⟩, .compact, .commit ⟨[2001], [], [20000, 20001]⟩], .inCompact 20, .proc⟩,
+   ⟨[.compact], .inClose 1, .power [.keep] 0 false⟩, ⟨[], .idle, .proc⟩]
+
+example : FreshHist [] ex_resink := by decide
+example : CondHist cfgOfSource (created cfgOfSource) ex_resink := by decide
+example : (match recover cfgOfSource (afterRounds cfgOfSource (created cfgOfSource) (ex_resink.take 1)) with
+    | .ok (m, fs) => some (fs.pv.trees.map (fun t => t.leaves.map (·.entries)), m.runs.length)
+    | .error _ => none) = some ([[[some 10000, some 20000]]], 1) := by decide
+example : (match recover cfgOfSource (afterRounds cfgOfSource (created cfgOfSource) ex_resink) with
+    | .ok (m, fs) => some (content m fs.pv)
+    | .error _ => none) = some ⟨[1001, 2001], [1000], [10000, 20000, 20001]⟩ := by decide
 
 /-! non-vacuity of the creation theorem: the process dies three times inside the creation of the
     database (power loss at steps 10, 25 and 3 of the respective `open`, some unsynced writes kept),
@@ -303,44 +321,58 @@ Proved (`Proofs/CrashSplit`, `Proofs/CrashTreeM`): sinking into a NEW tree is sa
 with any number of leaf splits (the chain of leaves, the sibling flags and the internal root stay in
 the shape `TreeShape`, on which `route` + `leafFind` find exactly the keys), and the state after a
 completed split compaction (multi-leaf tree, `ptop = true`) satisfies the invariant, so commits,
-crashes, recoveries, closes and property-less compactions after it are covered by `crash_prefix`.
+crashes, recoveries, closes and compactions that APPEND to the last leaf of the live tree without
+splitting it (`Proofs/CrashSplit.pblk_sinkLive`) are covered by `crash_prefix`.
 `ex_split` is such a history (leaf capacity 4, so that `decide` can run it; the real capacity is
 281 and the thorough tier of the stream runs the same scenarios on the real engine with 150–350
 properties).
 
-Not covered (`NoLiveSplit`): sinking into the LIVE tree unless it is a single leaf with room:
+Not covered (`NoLiveSplit`): sinking into the LIVE tree when its last leaf has no room, or — under
+an internal root — with keys that are not above all keys of the tree:
 * a split of the LIVE leaf rewrites its left half IN PLACE and syncs it (with the next page
   allocation) long before the manifest: from that write on, until the system transaction is
   complete in the log, EVERY crash image — plain process death included — has lost the entries of
   the right half except its first (the old manifest enters at the old root leaf, the cursor only
   looks at slot 0 of the right sibling).  This is the known finding C01-live-tree-in-place; no
   selection of unsynced writes avoids it once the sync has happened (`counterexample_live_split`);
-* sinking without split into a live tree that already has an internal root is safe on the model
-  in every case tried but is outside the proved class (the class fixes `ptop = false` for a live
-  tree that is written to). -/
+* with an internal root the split also rewrites the ROOT in place: a torn write of it makes the
+  whole tree unreadable (`tornEff`; stream witness `corpus/crash/live-root-in-place.ops`, found by
+  the thorough tier);
+* the model always inserts into the last leaf (keys ascend with time); under an internal root the
+  proofs therefore ask for keys above all keys of the tree (`LiveAscends`).  A live tree that is
+  one leaf takes keys in any order, re-sunk keys included (`ex_resink`). -/
 
 def cfgSplit : Cfg := { cfgOfSource with leafCap := 4 }
 def split_tx0 : Tx := ⟨[1001], [], [10000, 10001, 10002, 10003, 10004, 10005]⟩
 def split_tx1 : Tx := ⟨[1001], [], [10000, 10001, 10002, 10003]⟩
 def split_tx2 : Tx := ⟨[2001], [], [20000]⟩
 
-/-- non-vacuity of `crash_prefix_cfg` with leaf splits: power loss in the middle of a compaction
-    that splits the leaves of a new tree (6 properties, capacity 4), the next incarnation repeats
-    the compaction to the end and dies in the close; the third one works on the multi-leaf tree
-    (`ptop = true`), compacts (edges only) and loses power inside a commit; the fourth is clean -/
+/-- non-vacuity of `crash_prefix_cfg` with leaf splits: power loss inside a compaction that has just
+    split the leaf of a new tree (5 properties, capacity 4; step 58, before the manifest); the next
+    incarnation repeats the compaction to the end, commits one more property and dies in the
+    close; the third one works on the multi-leaf tree (`ptop = true`): its compaction APPENDS the
+    property to the last leaf of the live tree (no split), then power is lost inside a commit;
+    the fourth is clean -/
+def split_tx5 : Tx := ⟨[1001], [], [10000, 10001, 10002, 10003, 10004]⟩
 def ex_split : List Round :=
-  [⟨[.commit split_tx0], .inCompact 40, .power [.keep, .drop, .keep] 0 false⟩,
-   ⟨[.compact, .commit ⟨[2001], [2000], []⟩], .inClose 3, .proc⟩,
+  [⟨[.commit split_tx5], .inCompact 58, .power [.keep, .drop, .keep] 0 false⟩,
+   ⟨[.compact, .commit split_tx2], .inClose 3, .proc⟩,
    ⟨[.commit ⟨[3001], [3000], []⟩, .compact], .inCommit ⟨[4001], [], [40000]⟩ 5, .power [.keep] 1 false⟩,
    ⟨[], .idle, .proc⟩]
 
 example : CfgOK cfgSplit := by decide
 example : FreshHist [] ex_split := by decide
 example : CondHist cfgSplit ({} : FS) ex_split := by decide
+set_option maxRecDepth 8000 in
 example : (match recover cfgSplit (afterRounds cfgSplit ({} : FS) ex_split) with
-    | .ok (m, fs) => some (content m fs.pv, m.proot, m.ptop)
+    | .ok (m, fs) => some (content m fs.pv, m.ptop)
     | .error _ => none) =
-    some (⟨[1001, 2001, 3001], [2000, 3000], [10000, 10001, 10002, 10003, 10004, 10005]⟩, 15, true) := by decide
+    some (⟨[1001, 2001, 3001], [3000], [10000, 10001, 10002, 10003, 10004, 20000]⟩, true) := by decide
+set_option maxRecDepth 8000 in
+example : (match recover cfgSplit (afterRounds cfgSplit ({} : FS) ex_split) with
+    | .ok (m, fs) => (fs.pv.trees.find? (fun t => t.key == m.proot)).map (fun t => t.leaves.map (·.entries))
+    | .error _ => none) =
+    some [[some 10000, some 10001], [some 10002, some 10003, some 10004, some 20000]] := by decide
 
 def splitProps (rounds : List Round) : Option (List Nat) :=
   match recover cfgSplit (afterRounds cfgSplit (created cfgSplit) rounds) with
